@@ -183,7 +183,10 @@ def c14_judge(spec, res, refs):
             if faults.get(str(idx)):
                 return reply == ref_reply or ("error" in reply and "code" not in reply)
             return reply == ref_reply
-        return "error" in reply and "code" not in reply  # non-requests: an error object
+        # non-requests (malformed / odd lines): the statement allows "a compile result or an error object";
+        # a lenient daemon may compile e.g. a request with duplicate keys or extra fields.  Which of the
+        # two it is, is not ours to demand (frame validity is bad-frame's business).
+        return isinstance(reply, dict) and (("error" in reply) != ("code" in reply))
 
     memo = {}
 
@@ -231,7 +234,7 @@ def c14_judge(spec, res, refs):
             if ln.get("kind") == "request":
                 return _v("C14", "disturbed", "reply #%d to line %d (%s) is %s; the same request sent alone to a fresh daemon gets %s"
                           % (j, idx, ln.get("entry"), _short(reply), _short(ref_reply)), spec, line=idx, entry=ln.get("entry"))
-            return _v("C14", "disturbed", "reply #%d to the malformed line %d (%s) is not an error object: %s"
+            return _v("C14", "disturbed", "reply #%d to the malformed line %d (%s) is neither a compile result nor an error object: %s"
                       % (j, idx, ln.get("entry"), _short(reply)), spec, line=idx, entry=ln.get("entry"))
         j += 1
     return _v("C14", "count", "replies cannot be aligned with the request lines", spec)
